@@ -87,11 +87,11 @@ Eval(n, cur, root, env) ==
          LET v == Eval(n.l, cur, root, env) IN
          IF ~IsVal(v) THEN v
          ELSE IF n.k = "sub" /\ v = Null
-              \* the corpus pins  null.[..] / null.{..}  to null although a
-              \* multi-select reached through a pipe is evaluated on null; for
-              \* other right-hand sides that do not map null to null it is open
-              THEN (IF n.r.k \in {"mslist", "mshash"} THEN Null
-                    ELSE LET w == Eval(n.r, v, root, env) IN IF w = Null THEN Null ELSE Open)
+              \* "if left-evaluation is null then result = null else result = search(right, left-evaluation)":
+              \* a sub-expression ends with null when its left side is null, whatever the right side is
+              \* (the corpus pins  null.[..] / null.{..} ; for a function on the right this was Open here
+              \* until the second audit pass, after the implementation)
+              THEN Null
          ELSE Eval(n.r, v, root, env)
     [] n.k = "proj" ->
          LET v == Eval(n.l, cur, root, env) IN
